@@ -178,8 +178,13 @@ def laneLife : List String → String
     | some st, some tl, some b, some r, some m, some f, some au, some es, some ob =>
       let cfg : Cfg := { stack := st, tls := tl, bodyChunks := b, respChunks := r, maxRetries := m,
                          sleepSelectsCtx := f, autoRead := au }
+      -- `timeout` = the deadline is http.Client's Timeout: its timer goroutine and the context
+      -- deadline race, so a later body-read error is or is not rewritten by cancelTimerBody —
+      -- both variants of the model are explored
+      let cfgs : List Cfg := if cancel == "timeout" then [{ cfg with clientTimer := true }, cfg] else [cfg]
       let kind : Option CtxErr :=
-        if cancel == "canceled" then some .canceled else if cancel == "deadline" then some .deadline
+        if cancel == "canceled" then some .canceled
+        else if cancel == "deadline" || cancel == "timeout" then some .deadline
         else none
       -- a trailing `~` on the trace: the response events were observed at the PEER (sent); the
       -- client may lag behind by any number of them — every such state is explored
@@ -195,7 +200,7 @@ def laneLife : List String → String
         -- a connection delivered before the harness observed the next step may or may not have
         -- been picked up: both orders are explored (the pick-up is an internal action)
         if evGuard cfg s (.cancel k) then
-          let outs := (s :: alts).flatMap fun t =>
+          let outs := cfgs.flatMap fun cfg => (s :: alts).flatMap fun t =>
             if evGuard cfg t (.cancel k) then (settle cfg 6 (evApply cfg t (.cancel k))).map (outcomeOf cfg t)
             else []
           match outs.find? (Outcome.matches ob) with
